@@ -420,7 +420,7 @@ def spec_check(ctx, budget):
         for i in range(-n - 1, n + 2):
             for arr in (False, True):
                 _run_history(out, rng, mt, rows, [["int", i]], arr, check_methods=False)
-    for it in range(500 * budget):
+    for it in range(400 * budget):
         mt, rows = _rand_aln(rng)
         # build the history against the evolving string state so later ops stay meaningful
         ops, cur_mt, cur = [], mt, dict(rows)
@@ -482,7 +482,7 @@ def correspondence(ctx):
     )
     rng = ctx.subrng("corr")
     cases = []
-    for it in range(ctx.budget(1200, 15000)):
+    for it in range(ctx.budget(1000, 15000)):
         mt, rows = _rand_aln(rng)
         if mt == "protein" and rng.random() < 0.5:
             mt, rows = _rand_aln(rng)
